@@ -55,9 +55,12 @@ Hidden(acts, scriptAct) ==
     IN /\ hub' = f.s /\ g' = f.g /\ bad' = f.bad /\ Rec(scriptAct)
 
 \* ---------------------------------------------------------------- the Minter chain
+\* classes of a user transaction: ok (a well-formed command), feehigh / notjson (no command: the coins stay in custody),
+\* other (not sent to the multisig), edit (not a user transfer at all: the multisig's members edit the multisig by hand,
+\* with a payload that is not a signer-set nonce -- it belongs to no bridge event and takes no event nonce)
 MntDeposit ==
     /\ mx.h < 14 /\ Len(mx.ref) < MaxDeposits
-    /\ \E tok \in {"1", "12"}, amt \in DepAmts, fee \in DepFees, class \in {"ok", "ok", "feehigh", "notjson", "other"}, rch \in DepDests :
+    /\ \E tok \in {"1", "12"}, amt \in DepAmts, fee \in DepFees, class \in {"ok", "feehigh", "notjson", "other", "edit"}, rch \in DepDests :
          LET h2 == mx.h + 1
              n  == Len(mx.ref) + 1
              ev == IF rch = "hub"
@@ -65,8 +68,8 @@ MntDeposit ==
                    ELSE [t |-> "Deposit", n |-> n, tok |-> tok, amt |-> amt, fee |-> fee, snd |-> "e7", rch |-> rch, rcv |-> "e8", eh |-> h2, txh |-> "x" \o ToString(cnt + 1)]
          IN /\ class = "ok" => fee < amt - amt \div 100           \* a well-formed command
             /\ (rch = "hub" => fee = 0)
-            /\ mx' = [mx EXCEPT !.h = h2,
-                                !.cust = IF class = "other" THEN @ ELSE Put(@, tok, Get(@, tok, 0) + amt),
+            /\ mx' = [mx EXCEPT !.h = h2, !.nonce = IF class = "edit" THEN @ + 1 ELSE @,
+                                !.cust = IF class \in {"other", "edit"} THEN @ ELSE Put(@, tok, Get(@, tok, 0) + amt),
                                 !.ref = IF class = "ok" THEN Append(@, ev) ELSE @]
             /\ Rec([k |-> "MntDeposit", i |-> 0, user |-> "e7", tok |-> tok, amt |-> amt, fee |-> fee, class |-> class, rch |-> rch,
                     rcv |-> IF rch = "hub" THEN "a3" ELSE "e8"])
